@@ -79,4 +79,6 @@ def close(a, b, rel=1e-9, abs_=1e-12):
     a, b = float(a), float(b)
     if a != a or b != b:
         return a != a and b != b
+    if a == b:
+        return True          # also equal infinities
     return abs(a - b) <= abs_ + rel * max(abs(a), abs(b))
